@@ -13,13 +13,18 @@
     * over the same model, for ANY sequence of write calls on cached accounts: Snapshot … RevertToSnapshot succeeds and restores
       every observable of the StateDB (balance, nonce, code hash, self-destruct flag, current and committed value of every slot,
       refund counter, log count, access list) — induction over the sequence (NibiruProofs/SDBRevert.lean);
-  NOT proved: the full simulation between NibiruModel.StateDB and GethSpec for arbitrary call sequences incl. account creation,
-  lazily loaded accounts and Commit; their observational equality is established by the three-way correspondence run only.
+    * the simulation NibiruModel.StateDB ~ GethSpec for ANY sequence of write calls, on lazily loaded accounts, accounts created by
+      the first write, and accounts absent from the store (NibiruProofs/SDBSim.lean): after the sequence every account read, every
+      `GetState` / `GetCommittedState`, the refund counter, the log count and the access list answer as the reference does;
+  NOT proved: the simulation across `CreateAccount`, nested snapshots interleaved with further writes, and `Commit` on the reference
+  side (what Nibiru's Commit persists is proved in SDBCommit.lean); there the observational equality rests on the three-way
+  correspondence run.
   The interpreter itself is the same code on both sides and is trusted.
 -/
 import NibiruModel.GethSpec
 import NibiruModel.StateDB
 import NibiruProofs.SDBRevert
+import NibiruProofs.SDBSim
 
 namespace Nibiru.GethSpec
 open Nibiru
@@ -254,5 +259,42 @@ example : ∃ s3, revertToSnapshot (applyAll (snapshot ({ objs := [(1, { balance
       intro w hwm a ha
       simp only [List.mem_cons, List.mem_singleton, List.not_mem_nil, or_false] at hwm
       rcases hwm with rfl | rfl | rfl | rfl | rfl | rfl | rfl | rfl <;> simp [WOp.acct] at ha <;> simp [← ha])
+
+/-- **C03 (partial: straight-line write sequences) — Nibiru's StateDB answers as go-ethereum's reference semantics does.** From
+    related states (e.g. the start of a transaction over the same persisted data, `sim_init`), after ANY sequence of interpreter
+    writes — AddBalance, SetNonce, SetCode, SetState, Suicide, AddLog, AddRefund, SubRefund, access-list additions — on any accounts
+    (cached, lazily loaded, or created by the write), the two remain related: every account read and every storage read of the
+    journaled implementation returns what the copy-on-snapshot specification returns, and the counters agree. -/
+theorem C03_write_sequences_simulate_reference_partial (s : S) (g : GethSpec.G) (h : Sim s g) (ws : List WOp) :
+    Sim (applyAll s ws) (GethSpec.runOps g (ws.map toSpec)) :=
+  sim_applyAll ws s g h
+
+/-- … spelled out for the reads the interpreter makes after the sequence -/
+theorem C03_reads_agree_after_any_write_sequence_partial (s : S) (g : GethSpec.G) (h : Sim s g) (ws : List WOp) (a k : Nat) :
+    (getState (applyAll s ws) a k).2 =
+      (match GethSpec.obj? (GethSpec.runOps g (ws.map toSpec)) a with
+        | some x => GethSpec.stateOf (GethSpec.runOps g (ws.map toSpec)) a x k
+        | none => 0) ∧
+    (applyAll s ws).refund = (GethSpec.runOps g (ws.map toSpec)).tx.refund ∧
+    (applyAll s ws).logs = (GethSpec.runOps g (ws.map toSpec)).tx.logs :=
+  ⟨(sim_getState _ _ (sim_applyAll ws s g h) a k).1, (sim_applyAll ws s g h).refund, (sim_applyAll ws s g h).logs⟩
+
+/-- non-vacuity: a store with one contract (nonce 1, code 7, 5 unibi, slot 0 = 9) and the same persisted data on the reference
+    side are related, so the two theorems above apply to every write sequence from there -/
+example : Sim { txStore := { accts := [(1, { nonce := 1, codeHash := 7, balance := 5 })], storage := [((1, 0), 9)] } }
+    { base := { accts := [(1, (1, 7, 5000000000000))], storage := [((1, 0), 9)] } } := by
+  apply sim_init
+  · intro a ha k
+    by_cases h1 : a = 1
+    · subst h1; simp [Store.acct, AList.find?] at ha
+    · have : ((1, 0) : Nat × Nat) ≠ (a, k) := fun e => h1 (congrArg Prod.fst e).symm
+      simp [Store.slot, AList.find?, this]
+  · intro a
+    by_cases h1 : a = 1
+    · subst h1; simp [Store.acct, AList.find?, weiPerUnibi]
+    · have : (1 : Nat) ≠ a := fun e => h1 e.symm
+      simp [Store.acct, AList.find?, this]
+  · intro a k
+    rfl
 
 end Nibiru.SDB
